@@ -377,8 +377,14 @@ def histH : Handler := fun j => do
             | some rec => if s1.store.length > s0.store.length then jObj [("data", jData rec.data), ("meta", jMeta rec.md)] else Json.null
             | Option.none => Json.null)
         | Option.none => Json.null
+      -- a write to the recording object of this run after the fact (`Recording.set_data` / `add_metadata`)
+      let late := match s1.log.findSome? (fun ev => match ev with | .create i => some i | _ => Option.none) with
+        | some i => (match lateWrite s1 i with
+            | .ok _ => Json.str "accepted"
+            | .error t => Json.str t)
+        | Option.none => Json.null
       out := out ++ [jObj [("end", jEnd e), ("journal", jJournal s1.journal), ("log", jArr (s1.log.map jEv)),
-                           ("saved", saved), ("idle", jIdle s1), ("drawn", jNat s1.drawn),
+                           ("saved", saved), ("late", late), ("idle", jIdle s1), ("drawn", jNat s1.drawn),
                            ("twinEnd", jEnd twin.2), ("twinJournal", jJournal twin.1)]]
       s := s1
       if stream.isSome then stream := some s1.draws
